@@ -100,4 +100,42 @@ PROPS = {
         "shards": {"quick": 4, "thorough": 16},
         "no_panic": ["frame "],
     },
+    "C04": {
+        "modules": ["Capnp.Props.C05"],
+        "gen": True,
+        "rule": "value trees (all list kinds, nested lists, zero-sized structs, capabilities) built through the public builder API "
+                "(NewRootStruct/NewStruct/SetPtr/SetUintN/New*List/Set/SetStruct/NewInterface) in 14 arena configurations (SingleSegment "
+                "and MultiSegment with initial capacities 0..4096; a custom exact-size arena with 0/8/16/64 bytes of slack so that near, far "
+                "and double-far pointers all occur), bottom-up or top-down, optionally writing and then overwriting temporary values; the "
+                "tree read back live, after Marshal/Unmarshal, MarshalPacked/UnmarshalPacked and Encoder/Decoder (packed and not, random "
+                "reader chunkings, with and without buffer reuse) must equal the written tree. Non-trivial: all; distinct by hash.",
+        "trusted": COMMON_TRUSTED + ["go2lean translation rules (pointer constructors)"],
+        "assumptions": [],
+        "shards": {"quick": 4, "thorough": 16},
+        "no_panic": ["build "],
+    },
+    "C05": {
+        "modules": ["Capnp.Props.C05"],
+        "gen": True,
+        "rule": "the same builder scripts as C04; the segments the library produced are judged by the Lean spec alone: Spec.Encoding.decodeTree "
+                "(independent decoder) must reconstruct exactly the written tree, and Spec.Encoding.validMessage must hold (whole-word segments, "
+                "every pointer resolves inside its target segment, landing pads well formed, root word / objects / landing pads pairwise disjoint).",
+        "trusted": COMMON_TRUSTED + ["go2lean translation rules (pointer constructors)", "Spec.Encoding transcribes capnproto.org/encoding.html"],
+        "assumptions": ["'initially zeroed storage' is observed through the written tree (unset fields read 0/null), not separately"],
+        "shards": {"quick": 4, "thorough": 16},
+        "no_panic": ["build "],
+    },
+    "C16": {
+        "modules": ["Capnp.Props.C05"],
+        "gen": True,
+        "rule": "a tree built in a source message (any arena) is assigned into a destination message (any arena) by SetRoot, Struct.SetPtr, "
+                "PointerList.Set, List.SetStruct or Struct.CopyFrom into a struct of 0..3 data words and 0..3 pointers that holds old content, "
+                "or by CopyFrom inside the same message; the destination must read as the source truncated / zero-extended to the destination's "
+                "shape; then every data byte reachable from the source is overwritten in place and the copy must not change, and vice versa; "
+                "capabilities are compared by client identity and the destination's capability table must grow by one entry per copied capability.",
+        "trusted": COMMON_TRUSTED,
+        "assumptions": ["reference counts of copied clients are covered by C10, not here"],
+        "shards": {"quick": 4, "thorough": 16},
+        "no_panic": ["build "],
+    },
 }
